@@ -3,6 +3,7 @@
 package proxy
 
 import (
+	"net"
 	"bufio"
 	"context"
 	"crypto/ecdsa"
@@ -215,3 +216,5 @@ func (e *penv) uniq(prefix string) string {
 func httpDate(t time.Time) string { return t.UTC().Format(http.TimeFormat) }
 
 func bufioReader(s string) *bufio.Reader { return bufio.NewReader(strings.NewReader(s)) }
+
+func bufioConn(c net.Conn) *bufio.Reader { return bufio.NewReader(c) }
